@@ -127,6 +127,12 @@ func c06Alphabet(level int) []dbx.Txn {
 		add(fmt.Sprintf("ins Q f%d k=k unreferenced", i+1), opInsert("Q", q, rm.Row{"k": str("k")}))
 	}
 	add("P.qs:=[f2] + ins Q f2 k=k (replaces f1)", opInsert("Q", uQ[1], rm.Row{"k": str("k")}), opUpdate("P", uP[0], rm.Row{"qs": uset(uQ[1])}))
+	// the same replacement when the transaction has already read or touched the row that is about to be collected
+	repl := []rm.Op{opInsert("Q", uQ[1], rm.Row{"k": str("k")}), opUpdate("P", uP[0], rm.Row{"qs": uset(uQ[1])})}
+	add("select Q; P.qs:=[f2] + ins Q f2 k=k (replaces f1)", append([]rm.Op{{Op: "select", Table: "Q"}}, repl...)...)
+	add("Q f1.v:=touched; P.qs:=[f2] + ins Q f2 k=k (replaces f1)", append([]rm.Op{opUpdate("Q", uQ[0], rm.Row{"v": str("touched")})}, repl...)...)
+	add("wait Q f1; P.qs:=[f2] + ins Q f2 k=k (replaces f1)", append([]rm.Op{{Op: "wait", Table: "Q", Where: whereUUID(uQ[0]), Until: "==", Columns: []string{"k"}, Rows: []rm.Row{{"k": str("k")}}}}, repl...)...)
+	add("P.qs-=f1; select Q; ins Q f2 k=k + P.qs+=f2", opMutate("P", uP[0], "qs", "delete", uset(uQ[0])), rm.Op{Op: "select", Table: "Q"}, opInsert("Q", uQ[1], rm.Row{"k": str("k")}), opMutate("P", uP[0], "qs", "insert", uset(uQ[1])))
 	return a
 }
 
